@@ -193,10 +193,21 @@ impl log::Log for SinkLogger {
         }
         let _t = arena::track_off();
         let _ = write!(Null, "{}", record.args());
+        // experiment only (CX_LOG_PANIC, see DESIGN 10.15): a sink that panics
+        // at the k-th record
+        let k = LOG_PANIC_IN.load(Ordering::Relaxed);
+        if k != u32::MAX && !std::thread::panicking() {
+            if k == 0 {
+                LOG_PANIC_IN.store(u32::MAX, Ordering::Relaxed);
+                std::panic::panic_any(crate::interp::Injected);
+            }
+            LOG_PANIC_IN.store(k - 1, Ordering::Relaxed);
+        }
     }
     fn flush(&self) {}
 }
 
+pub static LOG_PANIC_IN: std::sync::atomic::AtomicU32 = std::sync::atomic::AtomicU32::new(u32::MAX);
 static SINK: SinkLogger = SinkLogger;
 
 /// Child side: evaluate (and discard) the library's trace-level log output for
